@@ -42,6 +42,10 @@ def tasks(tier):
 # ======================================================================================================
 # abstract random histories
 # ======================================================================================================
+BIG_NE = (1000.0, 7310.0, 250.0, 12300.0)
+SMALL_NE = (20.0, 50.0, 100.0)
+
+
 class History:
     """Forward-in-time description.  steps[s] = dict(event=..., live=[names after the event], gens=float,
     sizes={name:(kind,N0,N1)}, mig=[(source,dest,rate)]); the event of step s happens at time tb[s]."""
@@ -59,8 +63,8 @@ class History:
         return t[::-1]            # tb[s] = time (generations ago) at which step s starts; tb[len] = 0
 
 
-def gen_history(rng, maxlive=5, nsteps=None, force=None, linear_ok=True):
-    Ne = rng.choice([1000.0, 7310.0, 250.0, 12300.0])
+def gen_history(rng, maxlive=5, nsteps=None, force=None, linear_ok=True, ne_choices=(1000.0, 7310.0, 250.0, 12300.0)):
+    Ne = rng.choice(list(ne_choices))
     H = History(Ne)
     live = ['d0']
     counter = [0]
@@ -83,23 +87,25 @@ def gen_history(rng, maxlive=5, nsteps=None, force=None, linear_ok=True):
             choices += ['pulse', 'pulse', 'extinct', 'merge']
         choices += ['successor']
         ev = rng.choice(choices)
+        fz = {}
         if force and s < len(force):
-            ev = force[s]
+            fz = force[s] if isinstance(force[s], dict) else dict(kind=force[s])
+            ev = fz['kind']
         event = dict(kind=ev)
-        if ev == 'split':
-            p = rng.choice(live)
+        if ev in ('split', 'split3'):
+            p = fz.get('parent') or rng.choice(live)
             H.info[p]['died'] = s
             live.remove(p)
-            c0, c1 = new([p], [1.0], s), new([p], [1.0], s)
-            live += [c0, c1]
-            event.update(parent=p, children=[c0, c1])
+            ch = [new([p], [1.0], s) for _ in range(3 if ev == 'split3' else 2)]
+            live += ch
+            event.update(parent=p, children=ch)
         elif ev == 'branch':
-            p = rng.choice(live)
+            p = fz.get('parent') or rng.choice(live)
             c = new([p], [1.0], s)
             live.append(c)
             event.update(parent=p, child=c)
         elif ev == 'successor':
-            p = rng.choice(live)
+            p = fz.get('parent') or rng.choice(live)
             H.info[p]['died'] = s
             live.remove(p)
             c = new([p], [1.0], s)
@@ -109,26 +115,27 @@ def gen_history(rng, maxlive=5, nsteps=None, force=None, linear_ok=True):
             npar = 2 if (k == 2 or rng.random() < 0.7) else 3
             if ev == 'merge':
                 npar = 2
-            parents = rng.sample(live, npar)
+            parents = fz.get('parents') or rng.sample(live, npar)
             raw = [rng.uniform(0.15, 1.0) for _ in parents]
             props = [round(x / sum(raw), 3) for x in raw]
             props[-1] = 1.0 - sum(props[:-1])
+            props = fz.get('props') or props
             c = new(parents, props, s)
             if ev == 'merge':
                 for p in parents:
                     H.info[p]['died'] = s
                     live.remove(p)
             live.append(c)
-            event.update(parents=parents, props=props, child=c)
+            event.update(parents=list(parents), props=list(props), child=c)
         elif ev == 'pulse':
-            dest = rng.choice(live)
+            dest = fz.get('dest') or rng.choice(live)
             others = [x for x in live if x != dest]
             nsrc = 1 if (len(others) == 1 or rng.random() < 0.6) else 2
-            srcs = rng.sample(others, nsrc)
-            props = [round(rng.uniform(0.05, 0.4), 3) for _ in srcs]
-            event.update(dest=dest, sources=srcs, props=props)
+            srcs = fz.get('sources') or rng.sample(others, nsrc)
+            props = fz.get('props') or [round(rng.uniform(0.05, 0.4), 3) for _ in srcs]
+            event.update(dest=dest, sources=list(srcs), props=list(props))
         elif ev == 'extinct':
-            p = rng.choice(live)
+            p = fz.get('pop') or rng.choice(live)
             H.info[p]['died'] = s
             live.remove(p)
             event.update(pop=p)
@@ -328,7 +335,9 @@ def native_ops(H, samples):
             nus = []
             for lab in axes:
                 if lab in frozen:
-                    nus.append(('constant', 1.0, 1.0))
+                    # the size of a frozen population is irrelevant to the model; Demes.py gives it the absolute size 1,
+                    # which enters dadi's time-step choice, so the hand-written model uses the same value
+                    nus.append(('constant', 1.0 / Ne, 1.0 / Ne))
                 else:
                     kind, N0, N1 = st['sizes'][lab]
                     nus.append((kind, nu_value(kind, N0, N1, Ne, f0), nu_value(kind, N0, N1, Ne, f1)))
@@ -350,11 +359,15 @@ def native_ops(H, samples):
 
 
 def run_native(ops, pts, theta=1.0):
-    import numpy
     import dadi
-    from dadi import PhiManip as PM, Integration as IN
     xx = dadi.Numerics.default_grid(pts)
-    phi = PM.phi_1D(xx, theta0=theta)
+    phi = dadi.PhiManip.phi_1D(xx, theta0=theta)
+    return _run_ops_from(phi, xx, ops, theta), xx
+
+
+def _run_ops_from(phi, xx, ops, theta=1.0):
+    import numpy
+    from dadi import PhiManip as PM, Integration as IN
     for op in ops:
         nd = phi.ndim
         if op[0] == 'new':
@@ -414,7 +427,11 @@ def run_native(ops, pts, theta=1.0):
                             kw['m%d%d' % (i + 1, j + 1)] = M[i][j]
                 fn = {2: IN.two_pops, 3: IN.three_pops, 4: IN.four_pops, 5: IN.five_pops}[nd]
                 phi = fn(phi.copy(), xx, T, theta0=theta, **kw)
-    return phi, xx
+        elif op[0] == 'reorder':
+            phi = numpy.ascontiguousarray(PM.reorder_pops(phi, list(op[1])))
+        else:
+            raise ValueError(op[0])
+    return phi
 
 
 def native_sfs(H, samples, ns, pts, theta=1.0):
@@ -501,20 +518,19 @@ def drv_native(tier, shard, ncase):
             d.case(key, False, dict(info, error='generator produced an invalid graph: %r' % (e,)), fail_key='generator')
             continue
         use_extrap = (ci % 4 == 3) and pk <= 3
+        if use_extrap:
+            pl = [pts, pts + 2, pts + 4]
 
-        def run():
-            if use_extrap:
-                pl = [pts, pts + 2, pts + 4]
+            def run():
                 got = dadi.Spectrum.from_demes(g, sampled_demes=list(sampled), sample_sizes=list(ns), pts=pl)
                 f = dadi.Numerics.make_extrap_func(lambda p, n, pts: native_sfs(H, samples, n, pts)[0])
                 want = f(None, ns, pl)
-            else:
-                got = dadi.Demes.SFS(g, list(sampled), list(ns), pts)
-                want, _ = native_sfs(H, samples, ns, pts)
-            e = relerr(got, want)
-            ok = e <= 1e-8 and list(got.pop_ids) == list(sampled)
-            return ok, dict(rel_err=e, pop_ids=list(got.pop_ids or []), via='from_demes' if use_extrap else 'SFS')
-        d.check(key, run, info, fail_key='demes-vs-native')
+                e = relerr(got, want)
+                return e <= 1e-8 and list(got.pop_ids) == list(sampled), dict(rel_err=e, via='from_demes', pts_l=pl)
+            d.check(key, run, info, fail_key='from_demes-vs-native-extrapolated')
+        else:
+            compare_with_native(d, key, info, lambda: dadi.Demes.SFS(g, list(sampled), list(ns), pts), H, samples, ns, pts,
+                                check_ids=sampled)
     return d.results()
 
 
@@ -540,7 +556,8 @@ def has_frozen5_mismatch(ops):
     return any(op[0] == 'int' and len(op[4]) == 5 and op[4][3] != op[4][4] for op in ops)
 
 
-def compare_with_native(d, key, info, call, H, samples, ns, pts, tol=1e-8, fail_key='demes-vs-native', check_ids=None):
+def compare_with_native(d, key, info, call, H, samples, ns, pts, tol=1e-8, fail_key='demes-vs-native', check_ids=None,
+                        classify=None):
     """call() -> spectrum from the demes side.  Classifies a mismatch."""
     import dadi
     try:
@@ -572,6 +589,8 @@ def compare_with_native(d, key, info, call, H, samples, ns, pts, tol=1e-8, fail_
             fail_key = 'noncontiguous-phi-into-4D5D-kernel'
         elif has_frozen5_mismatch(ops):
             fail_key = 'frozen5-takes-frozen4-flag'
+        elif classify is not None:
+            fail_key = classify(extra) or fail_key
     return d.case(key, ok, dict(info, **extra), fail_key=fail_key)
 
 
@@ -669,14 +688,20 @@ def drv_invariance(tier, shard, ncase):
                bound='%d random histories per shard (as in native.*, <=4 live demes, contemporary or mixed ancient samples); '
                      'graph in years with generation_time in {25, 29.5, 0.25}; sizes and times x c, rates / c, c in {2, 0.37, 3.3}; '
                      'every permutation (<=6) of the sampled demes; explicit Ne=c*N_root with theta=c; all vs the base spectrum, '
-                     'max|diff| <= 1e-9*max (permutation 1e-12)' % ncase)
+                     'max|diff| <= 1e-9*max (permutation 1e-12; rescaling/explicit Ne with ancient samples 1e-5 because the frozen deme '
+                     'keeps the absolute size 1 and dadi picks its time step from it)' % ncase)
     rng = _shard_rng(d, shard)
     for ci in range(ncase):
-        H = gen_history(rng, maxlive=rng.choice([2, 3, 4]))
         mode = 'now' if ci % 3 else 'mixed'
+        # ancient samples: Demes.py gives a frozen deme the absolute size 1, i.e. nu=1/Ne, and dadi's time step is
+        # proportional to the smallest nu: keep Ne small there or a single case takes minutes
+        H = gen_history(rng, maxlive=rng.choice([2, 3, 4]), ne_choices=SMALL_NE if mode == 'mixed' else BIG_NE)
         samples = pick_samples(rng, H, mode)
         if maxlive_with(H, samples) > 5:
             samples = pick_samples(rng, H, 'now')
+        anc = any(t > 0 for (_, t) in samples)
+        # with a frozen deme (absolute size 1) the time steps are not scale covariant: discretisation-level agreement only
+        stol = 1e-5 if anc else 1e-9
         ns = [rng.choice([2, 3]) for _ in samples]
         pts = pts_for(min(5, maxlive_with(H, samples)))
         gd = render_demes(H)
@@ -702,13 +727,13 @@ def drv_invariance(tier, shard, ncase):
             g2 = resolve(scale_graph(gd, tfac=c, sfac=c))
             got = demes_call(g2, [(n, t * c) for (n, t) in samples], ns, pts)
             e = relerr(got, base)
-            return e <= 1e-9, dict(rel_err=e, c=c)
+            return e <= stol, dict(rel_err=e, c=c, tol=stol)
         d.check(key0 + ('rescale', c), rescale, info, fail_key='reference-size-rescaling')
 
         def explicit_ne():
             got = demes_call(resolve(gd), samples, ns, pts, Ne=c * H.Ne, theta=c)
             e = relerr(got, base)
-            return e <= 1e-9, dict(rel_err=e, c=c, Ne=c * H.Ne, theta=c)
+            return e <= stol, dict(rel_err=e, c=c, Ne=c * H.Ne, theta=c, tol=stol)
         d.check(key0 + ('Ne', c), explicit_ne, info, fail_key='explicit-Ne-root-equilibrium')
         perms = list(itertools.permutations(range(len(samples))))[1:]
         rng.shuffle(perms)
@@ -728,23 +753,29 @@ def drv_invariance(tier, shard, ncase):
 # ======================================================================================================
 # task: ancient samples == frozen branches (incl. slicing when every sample is ancient)
 # ======================================================================================================
-def classify_ancient(H, samples):
-    """which known weakness of the slicing code a failing all-ancient case exercises (None if none)"""
+def classify_ancient(H, samples, extra):
+    """which weakness of the slicing code a failing all-ancient case exercises (None if none)"""
     tb = H.tb()
     tmin = min(t for (_, t) in samples)
     if tmin <= 0:
         return None
+    exc = extra.get('exception', '')
+    if 'ancestor deme' in exc and 'not found' in exc:
+        return 'all-ancient-rename-leaves-ancestor-links'
+    if exc:
+        return None
+    # direct evidence: DemesUtil.slice must leave every surviving deme with its own size at the slice time
+    import dadi
+    try:
+        g2 = dadi.Demes.DemesUtil.slice(resolve(render_demes(H)), tmin)
+    except Exception:
+        return None
     for s, st in enumerate(H.steps):
         if tb[s + 1] < tmin < tb[s]:
-            if any(k == 'linear' for (k, _, _) in st['sizes'].values()):
-                return 'slice-linear-epoch'
-    at_tmin = [n for (n, t) in samples if t == tmin]
-    for n in at_tmin:
-        for m, inf in H.info.items():
-            if n in inf['anc'] and inf['born'] is not None and tb[inf['born']] > tmin:
-                return 'all-ancient-rename-leaves-ancestor-links'
-        if any(n2 == n and t > tmin for (n2, t) in samples):
-            return 'all-ancient-rename-leaves-ancestor-links'
+            for n, (kind, N0, N1) in st['sizes'].items():
+                want = nu_value(kind, N0, N1, 1.0, (tb[s] - tmin) / (tb[s] - tb[s + 1]))
+                if n in g2 and abs(g2[n].epochs[-1].end_size - want) > 1e-9 * want:
+                    return 'slice-linear-epoch' if kind == 'linear' else 'slice-size-at-cut'
     return None
 
 
@@ -756,7 +787,7 @@ def drv_ancient(tier, shard, ncase):
                      'frozen populations, max|diff| <= 1e-8*max' % ncase)
     rng = _shard_rng(d, shard)
     for ci in range(ncase):
-        H = gen_history(rng, maxlive=rng.choice([2, 3, 4, 4]))
+        H = gen_history(rng, maxlive=rng.choice([2, 3, 4, 4]), ne_choices=SMALL_NE)
         mode = 'ancient' if ci % 3 == 2 else 'mixed'
         samples = None
         for _ in range(20):
@@ -776,15 +807,15 @@ def drv_ancient(tier, shard, ncase):
         g = resolve(render_demes(H))
         info = dict(hist_summary(H, samples), ns=ns, pts=pts, shard=shard, case=ci, mode=mode, axes=ml)
         key = (shard, ci, mode, ml, tuple(samples))
-        fk = classify_ancient(H, samples) or 'ancient-vs-frozen'
-        compare_with_native(d, key, info, lambda: demes_call(g, samples, ns, pts), H, samples, ns, pts, fail_key=fk)
+        compare_with_native(d, key, info, lambda: demes_call(g, samples, ns, pts), H, samples, ns, pts,
+                            fail_key='ancient-vs-frozen', classify=lambda extra: classify_ancient(H, samples, extra))
     return d.results()
 
 
 # ======================================================================================================
 # task: export of random dadi programs and re-import
 # ======================================================================================================
-def gen_program(rng, maxd):
+def gen_program(rng, maxd, admix=True):
     """random op list in run_native's format plus 'reorder'; every new population / pulse is followed by an integration"""
     ops = []
     nd = 1
@@ -821,7 +852,7 @@ def gen_program(rng, maxd):
             ch = ['int']
         c = rng.choice(ch)
         if c == 'new':
-            if nd == 1 or rng.random() < 0.55:
+            if nd == 1 or not admix or rng.random() < 0.55:
                 src = rng.randrange(nd)
                 p = [1.0 if i == src else 0.0 for i in range(nd)]
             else:
@@ -868,24 +899,16 @@ def run_program(ops, pts, nu_root=1.0):
     from dadi import PhiManip as PM
     xx = dadi.Numerics.default_grid(pts)
     phi = PM.phi_1D(xx, nu=nu_root)
-    for op in ops:
-        if op[0] == 'reorder':
-            phi = numpy.ascontiguousarray(PM.reorder_pops(phi, list(op[1])))
-        else:
-            phi = _apply_op(phi, xx, op)
-    return phi, xx
+    return _run_ops_from(phi, xx, ops), xx
 
 
-def _apply_op(phi, xx, op):
-    """one op of run_native applied to an existing phi (shares the code of run_native by replaying on a stub)"""
-    return _run_ops_from(phi, xx, [op])
-
-
-def export_fail_key(ops):
+def export_fail_key(ops, exc, mismatch):
+    """name the defect class a failing export case belongs to, from the program and from how it failed"""
     nd = 1
-    k4 = k5 = False
+    k4 = k5 = adm = False
     for op in ops:
         if op[0] == 'new':
+            adm = adm or sum(1 for v in op[1] if v != 0) > 1
             nd += 1
         elif op[0] == 'remove':
             nd -= 1
@@ -894,6 +917,14 @@ def export_fail_key(ops):
                 k4 = True
             if nd == 5:
                 k5 = True
+    if exc:
+        if 'proportions' in exc and '0 <=' in exc:
+            return 'export-complement-proportion-roundoff'
+        if k4 and ('same as dest' in exc or 'source' in exc):
+            return 'export-4D-admix-into-4-recorded-as-dest-1'
+        if adm and 'is not in list' in exc:
+            return 'export-admixed-new-population-reimport-crash'
+        return 'export-reimport'
     if k5:
         return 'export-5D-pulse-not-recorded'
     if k4:
@@ -908,13 +939,13 @@ def drv_export(tier, shard, ncase):
                      'admixture, pulse from 1-2 sources (2-D..5-D, every destination), remove_pop, reorder_pops}, each new population/'
                      'pulse followed by an integration (constant/exponential/linear sizes, random migration), 1-5 populations; '
                      'Demes.output(Nref in {1000,7310,123.5}, generation_time in {None,25,29.5}) re-imported by Demes.SFS(theta=nu_root) '
-                     'at the same pts (14/12/10/8 by dimension) vs the program spectrum: max|diff| <= 1e-7*max, or 5e-3*max when the '
+                     'at the same pts (14/12/10/8 by dimension) vs the program spectrum: max|diff| <= 1e-7*max, or 2e-3*max when the '
                      'program reorders populations (the re-import integrates the axes in another order: splitting error)' % ncase)
     import dadi
     rng = _shard_rng(d, shard)
     for ci in range(ncase):
         maxd = 5 if ci % 4 == 0 else rng.choice([2, 3, 4])
-        ops, nd = gen_program(rng, maxd)
+        ops, nd = gen_program(rng, maxd, admix=(ci % 3 == 2))
         peak, n = 1, 1
         for op in ops:
             n += (op[0] == 'new') - (op[0] == 'remove')
@@ -926,40 +957,178 @@ def drv_export(tier, shard, ncase):
         ns = [rng.choice([2, 3, 4]) for _ in range(nd)]
         info = dict(ops=ops, pts=pts, nu_root=nu_root, Nref=Nref, generation_time=gen_time, ns=ns, shard=shard, case=ci)
         key = (shard, ci, peak, tuple(op[0] for op in ops))
-        fk = export_fail_key(ops)
         reorders = any(op[0] == 'reorder' for op in ops)
-        tol = 5e-3 if reorders else 1e-7
-
-        def run():
+        tol = 2e-3 if reorders else 1e-7
+        extra = dict(tol=tol)
+        ok, exc, want, reimport = False, '', None, None
+        try:
             phi, xx = run_program(ops, pts, nu_root)
             want = dadi.Spectrum.from_phi(numpy.ascontiguousarray(phi), ns, [xx] * nd)
             with warnings.catch_warnings():
                 warnings.simplefilter('ignore')
                 g = dadi.Demes.output(Nref=Nref, generation_time=gen_time)
             names = list(dadi.Demes.cache[-1].deme_ids)
-            extra = dict(names=names)
+            extra['names'] = names
 
             def reimport():
                 return dadi.Demes.SFS(g, list(names), list(ns), pts, theta=float(nu_root))
-            got = reimport()
-            e = relerr(got, want)
+            e = relerr(reimport(), want)
             extra['rel_err'] = e
-            extra['tol'] = tol
-            return e <= tol, extra, reimport, want
-        try:
-            ok, extra, reimport, want = run()
+            ok = e <= tol
         except Exception:
             import traceback
-            d.case(key, False, dict(info, exception=traceback.format_exc()[-900:]), fail_key=fk)
-            continue
-        if not ok and fk == 'export-reimport':
-            try:
-                with contiguous_reorder():
-                    e2 = relerr(reimport(), want)
-                extra['rel_err_with_contiguous_reorder'] = e2
-                if e2 <= tol:
-                    fk = 'noncontiguous-phi-into-4D5D-kernel'
-            except Exception:
-                pass
+            exc = traceback.format_exc()
+            extra['exception'] = exc[-700:]
+        fk = None
+        if not ok:
+            fk = export_fail_key(ops, exc, not exc)
+            if fk == 'export-reimport' and not exc:
+                try:
+                    with contiguous_reorder():
+                        e2 = relerr(reimport(), want)
+                    extra['rel_err_with_contiguous_reorder'] = e2
+                    if e2 <= tol:
+                        fk = 'noncontiguous-phi-into-4D5D-kernel'
+                except Exception:
+                    pass
         d.case(key, ok, dict(info, **extra), fail_key=fk)
     return d.results()
+
+
+# ======================================================================================================
+# task: deterministic shapes the random generators reach rarely
+# ======================================================================================================
+def drv_fixed(tier):
+    import os, tempfile, shutil
+    import numpy
+    import dadi, demes
+    d = Driver('C16', 'fixed',
+               bound='hand-picked shapes (random sizes/migration): three-way split; a deme sampled at its default sample time when it '
+                     'splits / merges; every destination of a pulse from two sources among 2,3,4,5 demes; a frozen 5th and a frozen '
+                     '4th of 5 axes; slicing through a linear epoch; all-ancient sampling of a deme with descendants; the same deme '
+                     'sampled now and in the past; from_demes given a YAML path; all vs the hand-written model, 1e-8*max')
+    rng = d.rng
+    reps = 1 if tier == 'quick' else 4
+
+    def go(name, force, samples_fn, fail_key, ne=BIG_NE, default_times=False, ns_val=2):
+        for r in range(reps):
+            H = gen_history(rng, maxlive=5, nsteps=len(force), force=force, ne_choices=ne)
+            tb = H.tb()
+            samples = samples_fn(H, tb)
+            ns = [ns_val] * len(samples)
+            ml = maxlive_with(H, samples)
+            pts = pts_for(ml)
+            g = resolve(render_demes(H))
+            info = dict(hist_summary(H, samples), ns=ns, pts=pts, shape=name)
+            if default_times:
+                call = lambda: dadi.Demes.SFS(g, [n for (n, _) in samples], list(ns), pts)
+            else:
+                call = lambda: demes_call(g, samples, ns, pts)
+            compare_with_native(d, (name, r), info, call, H, samples, ns, pts, fail_key=fail_key,
+                                classify=lambda extra: classify_ancient(H, samples, extra))
+
+    go('split3', [dict(kind='split3', parent='d0')], lambda H, tb: [('d1', 0.0), ('d2', 0.0), ('d3', 0.0)],
+       'split-into-three-children')
+    go('sample-split-parent-at-end', [dict(kind='none'), dict(kind='split', parent='d0')],
+       lambda H, tb: [('d0', tb[1]), ('d1', 0.0)], 'sample-at-end-of-split-parent', ne=SMALL_NE, default_times=True)
+    go('sample-merge-parent-at-end', [dict(kind='split', parent='d0'), dict(kind='merge', parents=['d1', 'd2'])],
+       lambda H, tb: [('d1', tb[1]), ('d3', 0.0)], 'sample-at-end-of-merge-parent', ne=SMALL_NE, default_times=True)
+    go('sample-successor-parent-at-end', [dict(kind='none'), dict(kind='successor', parent='d0')],
+       lambda H, tb: [('d0', tb[1]), ('d1', 0.0)], 'sample-at-end-of-succeeded-deme', ne=SMALL_NE, default_times=True)
+    # pulses: every destination, two sources, k = 2..5 demes built by successive branches off d0
+    for k in range(2, 6):
+        names = ['d%d' % i for i in range(k)]
+        for dest in names:
+            others = [n for n in names if n != dest]
+            srcs = others[:2] if k > 2 else others[:1]
+            force = [dict(kind='branch', parent='d0') for _ in range(k - 1)] + \
+                    [dict(kind='pulse', dest=dest, sources=srcs, props=[0.3, 0.2][:len(srcs)])]
+            go('pulse-%dD-into-%s' % (k, dest), force, lambda H, tb: [(n, 0.0) for n in names[:4]],
+               'pulse-dispatch-%dD' % k)
+    # frozen flags among five axes
+    go('frozen-5th-of-5', [dict(kind='split', parent='d0'), dict(kind='split', parent='d1'), dict(kind='split', parent='d2'),
+                           dict(kind='none')],
+       lambda H, tb: [('d6', 0.0), ('d5', 0.0), ('d4', round(tb[4] + 0.5 * H.steps[3]['gens'], 3)), ('d3', 0.0)],
+       'frozen5-takes-frozen4-flag', ne=SMALL_NE)
+    go('frozen-4th-of-5', [dict(kind='split', parent='d0'), dict(kind='branch', parent='d1'), dict(kind='none'),
+                           dict(kind='branch', parent='d2')],
+       lambda H, tb: [('d1', 0.0), ('d2', round(tb[3] + 0.5 * H.steps[2]['gens'], 3)), ('d4', 0.0)],
+       'frozen5-takes-frozen4-flag', ne=SMALL_NE)
+    for fr in range(1, 4):   # frozen branch among 2,3,4 axes
+        force = [dict(kind='branch', parent='d0') for _ in range(fr - 1)] + [dict(kind='none')]
+        go('frozen-among-%d' % (fr + 1), force,
+           lambda H, tb: [('d0', round(0.4 * H.steps[-1]['gens'], 3))] + [('d%d' % i, 0.0) for i in range(fr)],
+           'ancient-vs-frozen', ne=SMALL_NE)
+    # slicing
+    for r in range(reps):
+        for kind in ('linear', 'exponential', 'constant'):
+            H = gen_history(rng, maxlive=1, nsteps=2, force=['none', 'none'], ne_choices=SMALL_NE)
+            k0, N0, N1 = H.steps[1]['sizes']['d0']
+            H.steps[1]['sizes']['d0'] = (kind, N0, N0 if kind == 'constant' else round(N0 * 2.5, 1))
+            samples = [('d0', round(0.5 * H.steps[1]['gens'], 3))]
+            g = resolve(render_demes(H))
+            compare_with_native(d, ('slice', kind, r), dict(hist_summary(H, samples), ns=[4], pts=14),
+                                lambda: demes_call(g, samples, [4], 14), H, samples, [4], 14,
+                                fail_key='slice-%s-epoch' % kind)
+
+            def sl():
+                g2 = dadi.Demes.DemesUtil.slice(g, samples[0][1])
+                got = g2['d0'].epochs[-1].end_size
+                want = nu_value(kind, N0, H.steps[1]['sizes']['d0'][2], 1.0, 0.5)
+                return abs(got - want) <= 1e-9 * want, dict(got=got, want=want, t=samples[0][1])
+            d.check(('slice-size', kind, r), sl, dict(hist_summary(H, samples)), fail_key='slice-%s-epoch' % kind)
+    go('all-ancient-with-descendant', [dict(kind='branch', parent='d0'), dict(kind='none')],
+       lambda H, tb: [('d0', round(0.5 * H.steps[1]['gens'], 3)), ('d1', round(0.5 * H.steps[1]['gens'], 3))],
+       'all-ancient-rename-leaves-ancestor-links', ne=SMALL_NE)
+    go('same-deme-now-and-past', [dict(kind='none'), dict(kind='none')],
+       lambda H, tb: [('d0', 0.0), ('d0', round(tb[1] + 0.3 * H.steps[0]['gens'], 3)), ('d0', tb[1])],
+       'ancient-vs-frozen', ne=SMALL_NE)
+    # YAML path
+    tmp = tempfile.mkdtemp(prefix='c16_')
+    try:
+        for r in range(2 * reps):
+            H = gen_history(rng, maxlive=3)
+            live = H.steps[-1]['live']
+            ns = [3] * len(live)
+            g = resolve(render_demes(H))
+            path = os.path.join(tmp, 'g%d.yaml' % r)
+            demes.dump(g, path)
+
+            def yaml_case():
+                a = dadi.Spectrum.from_demes(path, sampled_demes=list(live), sample_sizes=ns, pts=[10, 12, 14])
+                b = dadi.Spectrum.from_demes(g, sampled_demes=list(live), sample_sizes=ns, pts=[10, 12, 14])
+                e = relerr(a, b)
+                return e <= 1e-9, dict(rel_err=e)
+            d.check(('yaml', r), yaml_case, hist_summary(H), fail_key='yaml-path')
+    finally:
+        shutil.rmtree(tmp, ignore_errors=True)
+    return d.results()
+
+
+def history_from_info(info):
+    """rebuild a History from the `info` of a recorded case (for replaying a failure natively)"""
+    H = History(info['Ne'])
+    for s, (ev, gens, sizes, mig) in enumerate(zip(info['events'], info['gens'], info['sizes'], info['mig'])):
+        k = ev['kind']
+        born = []
+        if k in ('split', 'split3'):
+            H.info[ev['parent']]['died'] = s
+            born = [(c, [ev['parent']], [1.0]) for c in ev['children']]
+        elif k in ('branch', 'successor'):
+            if k == 'successor':
+                H.info[ev['parent']]['died'] = s
+            born = [(ev['child'], [ev['parent']], [1.0])]
+        elif k in ('admix', 'merge'):
+            if k == 'merge':
+                for p in ev['parents']:
+                    H.info[p]['died'] = s
+            born = [(ev['child'], ev['parents'], ev['props'])]
+        elif k == 'extinct':
+            H.info[ev['pop']]['died'] = s
+        for (n, anc, props) in born:
+            H.info[n] = dict(anc=list(anc), props=list(props), born=s, died=None)
+            H.order.append(n)
+        live = [n for n in H.order if n in sizes]
+        H.steps.append(dict(event=ev, live=live, gens=gens, sizes={n: tuple(v) for n, v in sizes.items()},
+                            mig=[tuple(m) for m in mig]))
+    return H
